@@ -142,6 +142,7 @@ type DiscPlan struct {
 	Rlpx  *RlpxPlan  `json:"rlpx,omitempty"`
 	Proto *ProtoPlan `json:"proto,omitempty"`
 	Peer  *PeerPlan  `json:"peer,omitempty"`
+	DL    *DLPlan    `json:"dl,omitempty"`
 }
 
 // Neighbor is one entry of a solicited NEIGHBORS reply.
@@ -452,6 +453,8 @@ func Exec(t *testing.T, pa any, col *kernel.Collector) []kernel.Violation {
 			vs = execProto(p.Proto, col)
 		case "peer":
 			vs = execPeer(p.Peer, col)
+		case "dl":
+			vs = execDL(p.DL, col)
 		default:
 			vs = execDisc(p, col)
 		}
@@ -461,6 +464,9 @@ func Exec(t *testing.T, pa any, col *kernel.Collector) []kernel.Violation {
 
 // Gen draws a plan of one of the three sub-simulations.
 func Gen(rng *kernel.RNG, env *kernel.Env, k int) any {
+	if k%9 == 8 {
+		return &DiscPlan{Mode: "dl", DL: GenDLPlan(rng, env, k).(*DLPlan)}
+	}
 	switch k % 4 {
 	case 1:
 		return &DiscPlan{Mode: "rlpx", Rlpx: genRlpx(rng, env)}
@@ -475,6 +481,14 @@ func Gen(rng *kernel.RNG, env *kernel.Env, k int) any {
 func Shrink(pa any) []any {
 	p := pa.(*DiscPlan)
 	var out []any
+	if p.Mode == "dl" && p.DL != nil {
+		for _, c := range ShrinkDLPlan(p.DL) {
+			q := *p
+			q.DL = c.(*DLPlan)
+			out = append(out, &q)
+		}
+		return out
+	}
 	if p.Mode == "peer" && p.Peer != nil {
 		for i := range p.Peer.Frames {
 			q := *p
